@@ -51,6 +51,7 @@ StringDictionaryHHTFC::StringDictionaryHHTFC(IteratorDictString *it,
     std::cerr << "[WARNING] The bucketsize value must be greater than 1. ";
     std::cerr << "The dictionary is built using buckets of size 2" << std::endl;
     this->bucketsize = 2;
+    bucketsize = 2;
   } else
     this->bucketsize = bucketsize;
 
